@@ -488,6 +488,51 @@ def assignAsset (cx : Ctx) (id : Nat) : Except Deny Nat :=
 def assignApp (cx : Ctx) (id : Nat) : Except Deny Nat :=
   if availableApp cx id then .ok id else .error .noapp
 
+
+/-! ## per-opcode-family resolvers as one decision function -/
+
+inductive Resource where
+  | account (a : Addr)
+  | asset (id : Nat)
+  | app (id : Nat)
+  | holding (a : Addr) (id : Nat)
+  | locals (a : Addr) (id : Nat)
+deriving DecidableEq, Repr
+
+/-- an access by an opcode family with its operands -/
+inductive Access where
+  /-- balance, min_balance, acct_params_get, voter_params_get -/
+  | acct (arg : AcctArg)
+  /-- asset_holding_get -/
+  | holding (arg : AcctArg) (ref : Nat)
+  /-- asset_params_get -/
+  | assetParams (ref : Nat)
+  /-- app_params_get, app_global_get_ex -/
+  | appParams (ref : Nat)
+  /-- app_opted_in, app_local_get (ref 0), app_local_get_ex -/
+  | locals (arg : AcctArg) (ref : Nat)
+  /-- app_local_put, app_local_del -/
+  | localMut (arg : AcctArg)
+  /-- itxn_field Sender / Receiver / CloseRemainderTo / AssetSender / AssetReceiver / AssetCloseTo / FreezeAssetAccount / Accounts -/
+  | setAccount (a : Addr)
+  /-- itxn_field XferAsset / ConfigAsset / FreezeAsset / Assets -/
+  | setAsset (id : Nat)
+  /-- itxn_field ApplicationID / Applications -/
+  | setApp (id : Nat)
+deriving Repr
+
+/-- allowed (with the resource the access then touches) / denied -/
+def resolve (cx : Ctx) : Access → Except Deny Resource
+  | .acct arg => (accountReference cx arg).map fun p => .account p.1
+  | .holding arg ref => (holdingReference cx arg ref).map fun p => .holding p.1 p.2
+  | .assetParams ref => (assetReference cx ref true).map .asset
+  | .appParams ref => (appReference cx ref true).map .app
+  | .locals arg ref => (localsReference cx arg ref).map fun p => .locals p.1 p.2
+  | .localMut arg => (localMutation cx arg).map fun p => .locals p.1 p.2
+  | .setAccount a => (assignAccount cx a).map .account
+  | .setAsset id => (assignAsset cx id).map .asset
+  | .setApp id => (assignApp cx id).map .app
+
 /-! ## inner transactions: `allows*` -/
 
 /-- an inner transaction as built by itxn_field (only the reference-carrying fields) -/
